@@ -33,15 +33,136 @@ def order_body(a0, a1, a2, b0, b1, b2, c0, c1, c2):
     rt.require(not ((a < b) and (b < c)) or (a < c), 'order:transitivity-strict')
 
 
+# ------------------------------------------------------------------ build -----
+BSPEC = [
+    {'task': 'ta', 'name': 'a', 'kind': 'task', 'svs': {'s': ['v', 'w']}, 'refs': []},
+    {'task': 'tb', 'name': 'b', 'kind': 'task', 'svs': {'s': ['v']}, 'refs': [('ta', 'a')]},
+    {'task': 'tc', 'name': 'c', 'kind': 'analysis', 'svs': {'s': ['v']}, 'refs': [('tb', 'b')]},
+]
+_B = {}
+
+
+def _bsetup():
+    if 'ae' not in _B:
+        import dawgie.context
+        import dawgie.db
+        import dawgie.db.shelve as shelve_db
+        import dawgie.pl.dag as dag
+        from vp.shims import shelveworld
+        from vp.shims.schedworld import _graph
+        from vp.shims.synthae import AE
+
+        _B['ae'] = AE(BSPEC)
+        _B['w'] = shelveworld.world()
+        _B['ver0'] = dict(_B['ae'].ver)
+        _B['elements'] = sorted(_B['ae'].ver)  # ('alg', tag) / ('sv', ..) / ('v', ..)
+        dag.Construct.graph = staticmethod(_graph)
+        dawgie.db.versions = shelve_db.versions
+        dawgie.db.update = shelve_db.update
+        dawgie.db.targets = lambda *a, **k: [t for t in shelve_db.targets() if not (t.startswith('__') and t.endswith('__'))]
+        dawgie.context.git_rev = 'r1'
+        dawgie.context.allow_promotion = False
+    return _B['ae'], _B['w']
+
+
+def _owner(el):
+    return '.'.join(el[1].split('.')[:2])
+
+
+def build_body(record_any, g1, g2, fin):
+    """generations: bump element g (or none) then persist every version through
+    the real version.record; finally keep / bump / revert one element and run the
+    real current/persistent/build"""
+    import dawgie.db.shelve as shelve_db
+    import dawgie.pl.schedule as schedule
+    import dawgie.pl.version as version
+
+    ne = 10
+    gens = []
+    for g in (g1, g2):
+        x = None
+        for j in range(ne + 1):
+            if g == j:
+                x = j
+                break
+        if x is None:
+            return
+        gens.append(x)
+    f = None
+    for j in range(2 * ne + 1):
+        if fin == j:
+            f = j
+            break
+    if f is None:
+        return
+    with rt.island():
+        ae, w = _bsetup()
+        w.reset()
+        ae.ver.clear()
+        ae.ver.update(_B['ver0'])
+        els = _B['elements']
+        assert len(els) == ne, els
+        shelve_db.add('T1')
+        shelve_db.add('T2')
+        persisted = {e: set() for e in els}
+        facs = ae.factories[dawgie.Factories.analysis] + ae.factories[dawgie.Factories.regress] + ae.factories[dawgie.Factories.task]
+
+        def bump(e):
+            d, i, b = ae.ver[e]
+            ae.ver[e] = (d, i + 1, b)
+
+        def record():
+            for fac in facs:
+                version.record(fac(dawgie.util.task_name(fac)))
+            for e in els:
+                persisted[e].add(ae.ver[e])
+
+        if record_any:
+            record()
+            rt.note('RECORD initial versions')
+            for g in gens:
+                if g < ne:
+                    bump(els[g])
+                    rt.note(f'BUMP {els[g]} -> {ae.ver[els[g]]} and RECORD')
+                record()
+        if 1 <= f <= ne:
+            bump(els[f - 1])
+            bump(els[f - 1])
+            rt.note(f'FINAL bump {els[f - 1]} -> {ae.ver[els[f - 1]]}')
+        elif f > ne:
+            ae.ver[els[f - ne - 1]] = _B['ver0'][els[f - ne - 1]]
+            rt.note(f'FINAL revert {els[f - ne - 1]} -> {ae.ver[els[f - ne - 1]]}')
+        else:
+            rt.note('FINAL keep')
+        schedule.que = []
+        schedule.build(ae.factories, version.current(facs), version.persistent())
+        want = {_owner(e) for e in els if ae.ver[e] not in persisted[e]}
+        got = {j.tag for j in schedule.que}
+        if want:
+            rt.nontrivial()
+        rt.require(got == want, 'build:scheduled-set', f'scheduled {sorted(got)}, owners of never-persisted versions {sorted(want)}; trace {rt.cur.trace}')
+        nodes = {}
+        for root in schedule.ae.at:
+            for n in root.iter():
+                nodes[n.tag] = n
+        for tag, n in nodes.items():
+            todo = list(n.get('todo'))
+            if tag in want:
+                exp = ['__all__'] if tag == 'tc.c' else ['T1', 'T2']
+                rt.require(sorted(todo) == exp, 'build:targets', f'{tag} scheduled for {todo}, expected {exp}')
+            else:
+                rt.require(not todo and not n.get('doing'), 'build:unowned-scheduled', f'{tag} has {todo} although none of its versions changed')
+
+
 INFO = {
     'explanation': 'Order lemma: the six comparison operators and newer() of the real dawgie.Version are executed '
     'symbolically on three versions whose nine components are unbounded non-negative z3 integers; CrossHair '
     'exhausts every path (Confirmed over all paths) so the equalities with the lexicographic tuple order, '
-    'trichotomy, antisymmetry and transitivity hold for all integers, not a sample.',
+    'trichotomy, antisymmetry and transitivity hold for all integers, not a sample. Build clause: version histories are persisted through the real version.record -> shelve.update and read back by shelve.versions; which element is bumped in each generation and finally bumped again or reverted is a z3 selector vector exhausted by CrossHair; after the real current/persistent/schedule.build the queue must hold exactly the owners of never-persisted versions with all known targets (all-targets marker for the analysis) and nothing else.',
     'rule': 'one path = one feasible combination of branch outcomes in Version.__eq__/__ge__/__le__/__ne__/newer; '
     'every path is non-trivial (all 14 clauses are evaluated on it)',
-    'functions': ['dawgie.Version.__eq__', '__ne__', '__lt__', '__le__', '__gt__', '__ge__', 'newer'],
-    'bounds': {'quick': 'components: all ints >= 0 (unbounded)', 'thorough': 'components: all ints >= 0 (unbounded)'},
+    'functions': ['dawgie.Version.__eq__', '__ne__', '__lt__', '__le__', '__gt__', '__ge__', 'newer', 'pl.version.current', 'pl.version.record', 'pl.version.persistent', 'db.shelve.versions', 'db.shelve.update', 'pl.schedule._diff', 'pl.schedule.build'],
+    'bounds': {'quick': 'order: components all ints >= 0 (unbounded); build: engine of 3 algorithms (10 versioned elements), persisted history of 0-3 generations each bumping any one element, final keep / bump any element / revert any element', 'thorough': 'same (the space is exhausted in the quick tier)'},
     'assumptions': ['version components are non-negative ints (documented contract of dawgie.Version)'],
     'outside': [],
 }
@@ -54,4 +175,10 @@ def obligations(tier):
     ref = 'vp.harness.c15:order_body'
     out = [ob.make('order', 'order', ref, sig, pre, call, timeout=300)]
     out.append(ob.make('order', 'order', ref, sig, pre, call, timeout=60, twin=True))
+    for g1 in range(11):
+        out.append(ob.make(f'build-g{g1}', 'build', 'vp.harness.c15:build_body', 'g2: int, fin: int', ['0 <= g2 <= 10 and 0 <= fin <= 20'],
+                           f"{{'record_any': True, 'g1': {g1}, 'g2': g2, 'fin': fin}}", timeout=900))
+    out.append(ob.make('build-empty-db', 'build', 'vp.harness.c15:build_body', 'fin: int', ['0 <= fin <= 20'], "{'record_any': False, 'g1': 10, 'g2': 10, 'fin': fin}", timeout=300))
+    out.append(ob.make('build', 'build', 'vp.harness.c15:build_body', 'g1: int, g2: int, fin: int', ['0 <= g1 <= 10 and 0 <= g2 <= 10 and 0 <= fin <= 20'],
+                       "{'record_any': True, 'g1': g1, 'g2': g2, 'fin': fin}", timeout=300, twin=True))
     return out
